@@ -121,4 +121,6 @@ def make_solver(name, system, t1, dt, options=None):
     options = options if options is not None else solver_options()
     if name == "DualStormerVerlet_LU":
         return S.DualStormerVerlet(system, t1, dt, options=options, linear_solver="LU")
+    if name == "DualStormerVerlet_plain":
+        return S.DualStormerVerlet(system, t1, dt, options=options, accelerated=False)
     return getattr(S, name)(system, t1, dt, options=options)
